@@ -7,7 +7,7 @@ from typing import Any
 
 import numpy as np
 
-from harness.core import Collector, check, run_hypothesis
+from harness.core import Collector, check, guard_call, run_hypothesis
 from harness.ropt_util import AffineEvaluator, ConstraintScaler, DesignSamplerPlugin, ObjectiveScaler
 from ropt.config.enopt import EnOptConfig
 from ropt.ensemble_evaluator import EnsembleEvaluator
@@ -553,14 +553,56 @@ def hypothesis_shard(item: dict[str, Any]) -> Collector:
     return col
 
 
+def grid_shard(item: dict[str, Any]) -> Collector:
+    """Every filter-index map of K objectives and C constraints over two filters (one ranking an objective, one a constraint) x
+    weight vectors with and without a zero x request patterns (function then gradient, both at once, repeated); fixed values."""
+    import itertools
+
+    col = Collector(ID)
+    k_n, c_n = item["K"], item["C"]
+    r_n, n, p_n = 4, 2, 2
+    filters = [{"method": "sort-objective", "options": {"sort": [0], "first": 1, "last": 2}},
+               {"method": "cvar-constraint" if c_n else "cvar-objective", "options": {"sort": 0 if c_n else [0], "percentile": 0.5}}]
+    x0, x1 = [[0.5, -1.0]], [[0.25, 2.0]]
+    patterns = {"split": [["F", x0, False], ["G", x0]], "both": [["B", x0]], "split-twice": [["F", x0, False], ["G", x0], ["F", x1, False], ["G", x1]],
+                "batch-then-gradient": [["F", [x0[0], x1[0]], False], ["G", x1]]}
+    # (None: the map is not given at all - not the same code path as a map of -1 entries)
+    obj_maps = [None, *itertools.product((-1, 0, 1), repeat=k_n)]
+    con_maps = [None, *itertools.product((-1, 0, 1), repeat=c_n)] if c_n else [None]
+    for obj_filt in obj_maps:
+        for con_filt in con_maps:
+            for weights, (pname, history), summary in itertools.product(([1.0, 2.0, 3.0, 0.5], [1.0, 0.0, 3.0, 0.5]), patterns.items(), (False, True)):
+                case = {
+                    "n": n, "R": r_n, "P": p_n, "K": k_n, "C": c_n, "weights": weights, "filters": filters, "obj_filt": None if obj_filt is None else list(obj_filt),
+                    "con_filt": None if con_filt is None else list(con_filt),
+                    "slopes": [0.25 * (((7 * i) % 11) - 5) for i in range(r_n * (k_n + c_n) * n)],
+                    "offsets": [0.5 * (((5 * i) % 13) - 6) for i in range(r_n * (k_n + c_n))],
+                    "design": [((3 * i) % 5 - 2.0) or 1.0 for i in range(r_n * p_n * n)], "estimator": None, "obj_weights": None, "huge": False,
+                    "history": history, "memo": False, "readonly": False, "ro_x": False, "info": False, "layout": None, "transforms": "",
+                    "vscale": [0.5] * n, "voff": [0.0] * n, "oscale": [2.0] * k_n, "cscale": [4.0] * c_n, "use_summary": summary,
+                }
+                stats: dict[str, Any] = {}
+
+                def go(case: dict[str, Any] = case, stats: dict[str, Any] = stats) -> None:
+                    stats.update(run_case(case))
+
+                guard_call(col, case, go)
+                col.case((k_n, c_n, obj_filt, con_filt, tuple(weights), pname, summary), nontrivial=bool(stats.get("inactive")),
+                         classes=("filter-map-grid", f"pattern={pname}", "zero-weights" if 0.0 in weights else "positive-weights",
+                                  "aborted" if stats.get("aborted") else "completed"), sample=case)
+    col.extra["exhaustive"] = True
+    return col
+
+
 def shards(tier: str, seed: int) -> list[dict[str, Any]]:
     nshard = 8 if tier == "quick" else 16
     examples = 250 if tier == "quick" else 3000
-    return [{"seed": seed * 1000 + i, "examples": examples} for i in range(nshard)]
+    grid = [{"kind": "grid", "K": k_n, "C": c_n} for k_n, c_n in ((1, 1), (2, 1), (1, 2), (2, 0))]
+    return [*grid, *({"seed": seed * 1000 + i, "examples": examples} for i in range(nshard))]
 
 
 def run_shard(item: dict[str, Any]) -> Collector:
-    return hypothesis_shard(item)
+    return grid_shard(item) if item.get("kind") == "grid" else hypothesis_shard(item)
 
 
 def replay(case: dict[str, Any]) -> None:
